@@ -164,6 +164,14 @@ type Sys struct {
 	// MakeRunner can be set to use another runner (e.g. the real TaskRunner); nil = monitored runner
 	MakeRunner func(j *prunner.PipelineJob) taskctl.Runner
 	callSeq    int64
+	started    map[string]bool // jobs started by this runner instance (jobs loaded from a store never were)
+}
+
+// WasStarted reports whether the job was started by this runner instance
+func (s *Sys) WasStarted(job string) bool {
+	s.mu.Lock()
+	defer s.mu.Unlock()
+	return s.started[job]
 }
 
 var (
@@ -251,6 +259,12 @@ func (s *Sys) createTaskRunner(j *prunner.PipelineJob) taskctl.Runner {
 	registry[id] = s
 	registryMu.Unlock()
 	s.Log.Add(Event{Kind: KNewRunner, Job: id, Pipe: j.Pipeline})
+	s.mu.Lock()
+	if s.started == nil {
+		s.started = map[string]bool{}
+	}
+	s.started[id] = true
+	s.mu.Unlock()
 	if s.MakeRunner != nil {
 		return s.MakeRunner(j)
 	}
